@@ -69,10 +69,13 @@ int Futex::wake_all() noexcept {
   }
   // Resume when remove nodes and get their ownership successfully.
   int waked = 0;
-  for (auto node = head; node != nullptr; node = node->next) {
+  for (auto node = head; node != nullptr;) {
+    // Read next before the slot is given back, a new waiter may reuse it at once
+    auto next = node->next;
     node->promise->resume(node->handle);
     box.finish_released(node->id);
     waked++;
+    node = next;
   }
   return waked;
 }
